@@ -242,6 +242,69 @@ def _public_part(chk, part):
         se.ConjugateGradient = old_cg
 
 
+def sec_kl_re(chk):
+    """the JAX driver's sampled KL: _kl_vg / _kl_met are the sample averages of value-and-gradient / metric of the standard Hamiltonian at
+    primals + residual -- and the Hamiltonian itself at the position when there are no samples (MAP)"""
+    import jax
+    jax.config.update("jax_enable_x64", True)
+    import jax.numpy as jnp
+    import importlib
+    import nifty.re as jft
+    okl = importlib.import_module("nifty.re.optimize_kl")
+    from vf.jaxsym import sym_call, symbols
+    from vf.objx import eq_status
+    chk.under_contract(okl._kl_vg)
+    chk.under_contract(okl._kl_met)
+    chk.assume("A-JAXTRACE: the jaxpr of _kl_vg / _kl_met for the given number of samples is the function")
+    n = 2
+    d, w = symbols((n,), "d", real=True), symbols((n,), "w", positive=True)
+    A = symbols((n, n), "A", real=True)
+    p, t = symbols((n,), "p", real=True), symbols((n,), "t", real=True)
+    Am = sp.Matrix(n, n, list(A.ravel()))
+
+    def make(d_, w_, A_):
+        return jft.Gaussian(d_, noise_cov_inv=w_).amend(lambda q: jnp.exp(A_ @ q))
+
+    def H(x):
+        f = [sp.exp(v) for v in Am * sp.Matrix(list(x))]
+        return sum(w[i] * (d[i] - f[i]) ** 2 for i in range(n)) / 2 + sum(v * v for v in x) / 2
+
+    def metric_t(x):
+        z = [sp.Symbol(f"z{i}", real=True) for i in range(n)]
+        f = [sp.exp(v) for v in Am * sp.Matrix(z)]
+        J = sp.Matrix([[sp.diff(fi, zj) for zj in z] for fi in f]).subs(dict(zip(z, x)))
+        return list((J.T * sp.diag(*list(w)) * J + sp.eye(n)) * sp.Matrix(list(t)))
+
+    def decide(label, got, want):
+        worst = ("discharged", "sympy", "")
+        for a, b in zip(got, want):
+            st = eq_status(sp.sympify(a), sp.sympify(b), n=5, simplify_seconds=4, seed=chk.seed)
+            if st[0] != "discharged":
+                worst = st
+                break
+            if st[1] != "sympy":
+                worst = st
+        chk.obligation(label, worst[0], backend=worst[1], detail=worst[2][:400])
+    ex = (jnp.ones(n), jnp.ones(n), jnp.ones((n, n)), jnp.ones(n) * 0.3)
+    for S in (0, 1, 2):
+        lab = f"kl_re: {S} samples"
+        if S:
+            r = symbols((S, n), "r", real=True)
+            rex = jnp.ones((S, n)) * 0.1
+            pts = [[p[i] + r[s, i] for i in range(n)] for s in range(S)]
+            vg, _ = sym_call(lambda d_, w_, A_, q, rr: okl._kl_vg(make(d_, w_, A_), q, jft.Samples(pos=q, samples=rr)), ex + (rex,), (d, w, A, p, r))
+            met, _ = sym_call(lambda d_, w_, A_, q, tt, rr: okl._kl_met(make(d_, w_, A_), q, tt, jft.Samples(pos=q, samples=rr)), ex + (jnp.ones(n), rex), (d, w, A, p, t, r))
+        else:
+            pts = [list(p)]
+            vg, _ = sym_call(lambda d_, w_, A_, q: okl._kl_vg(make(d_, w_, A_), q, jft.Samples(pos=None, samples=None)), ex, (d, w, A, p))
+            met, _ = sym_call(lambda d_, w_, A_, q, tt: okl._kl_met(make(d_, w_, A_), q, tt, jft.Samples(pos=None, samples=None)), ex + (jnp.ones(n),), (d, w, A, p, t))
+        V = sum(H(x) for x in pts) / len(pts)
+        decide(f"{lab}: _kl_vg value == average of the standard Hamiltonian (likelihood + 1/2 |x|^2) over primals + residual", [np.asarray(vg[0], dtype=object).ravel()[0]], [V])
+        decide(f"{lab}: _kl_vg gradient == d value / d primals (residuals held fixed)", list(np.asarray(vg[1], dtype=object).ravel()), [sp.diff(V, q) for q in p])
+        Mt = [sum(col) / len(pts) for col in zip(*[metric_t(x) for x in pts])]
+        decide(f"{lab}: _kl_met == average of (J^T N^-1 J + 1) t over primals + residual", list(np.asarray(met, dtype=object).ravel()), Mt)
+
+
 def sec_refusals(chk):
     import nifty.cl as ift
     import nifty.cl.minimization.kl_energies as kle
@@ -279,4 +342,4 @@ def _mk_public(part):
     return sec
 
 
-SECTIONS = [_mk_class(k) for k in range(NCLASS)] + [_mk_public(k) for k in range(NPUB)] + [sec_refusals]
+SECTIONS = [_mk_class(k) for k in range(NCLASS)] + [_mk_public(k) for k in range(NPUB)] + [sec_kl_re, sec_refusals]
